@@ -347,9 +347,15 @@ def splitCalls (xs : List α) : List Nat → List (List α)
   | [] => if xs.isEmpty then [] else [xs]
   | c :: cs => xs.take c :: splitCalls (xs.drop c) cs
 
+/-- the PCM of a `wr` case: the `pcm` list, or `pcmgen=const:<n>:<v>` = n interleaved samples of value v -/
+def wrPcm (f : Fields) : List Int :=
+  match (f.get "pcmgen").splitOn ":" with
+  | ["const", n, v] => List.replicate ((n.toNat?).getD 0) ((v.toInt?).getD 0)
+  | _ => parseInts (f.get "pcm")
+
 def opWr (f : Fields) (implHead : String) : String :=
   if implHead != "ok" then "model-skip" else
-  let pcm := parseInts (f.get "pcm")
+  let pcm := wrPcm f
   let ch := ((f.get "ch").toNat?).getD 1
   let bps := ((f.get "bps").toNat?).getD 16
   let bs := ((f.get "bs").toNat?).getD 4096
@@ -643,7 +649,7 @@ def runCase (line : String) : String :=
   | "wr" =>
     if implHead != "ok" || impl.get "file" == "" then "model-skip @@ -" else
     let spec := match hexToBytes (impl.get "file") with
-      | some file => specCheckFile file (parseInts (f.get "pcm")) (((f.get "ch").toNat?).getD 1)
+      | some file => specCheckFile file (wrPcm f) (((f.get "ch").toNat?).getD 1)
       | none => "-"
     opWr f implHead ++ opWrFinalize f impl ++ " @@ " ++ spec
   | _ => "model-skip @@ -"
@@ -721,7 +727,7 @@ def genInvalidCases (seed n : Nat) : List String := Id.run do
       match got with
       | none => pure ()
       | some (fr, cls, must) =>
-        out := s!"streamread bytes={bytesToHex (Spec.serialize fr)} class={cls} expect={if must then "reject" else "any"} kind=invalid nummin={if canonicalAsParsed (Spec.serialize fr) then 1 else 0}" :: out
+        out := s!"streamread bytes={bytesToHex (serializeMutated fr cls)} class={cls} expect={if must then "reject" else "any"} kind=invalid nummin={if canonicalAsParsed (serializeMutated fr cls) then 1 else 0}" :: out
     else
       let mut got2 : Option (SInfo × Frame × String × Bool) := none
       for _ in [0:8] do
@@ -754,7 +760,7 @@ def genInvalidCases (seed n : Nat) : List String := Id.run do
       let total := if overshoot then (fr.hdr.blockSize * (if twice then 2 else 1)) - 1 - (i / 16 % 5) else if known then fr.hdr.blockSize else 0
       let head := fileHead si2 total (List.replicate 16 0) 16
       let reader := ["sample", "byte", "chan", "iter"].getD (i / 2 % 4) "sample"
-      let body := if twice then Spec.serialize fr ++ Spec.serialize fr else Spec.serialize fr
+      let body := if twice then serializeMutated fr cls ++ serializeMutated fr cls else serializeMutated fr cls
       -- two frames whose first exactly fills the declared total: the second is trailing data the readers never look at
       let trailing := overshoot && twice && total == fr.hdr.blockSize
       let (cls', must') := if trailing then ("trailing-frame-after-total", false)
